@@ -253,6 +253,18 @@ def run(ctx):
                     for t_ in tags:
                         ctx.count(f"kept_tie:{t_}")
                 continue
+            if isinstance(exp, tuple) and exp[0] == "plain":
+                # setBlockTypeF_plain_noask on real runs: a plain target type (model predicate `plainType`) never makes
+                # set_block_type consult the Fitter; the one-state types the oracle calls `plain_inline` are plain
+                _, py_plain, nfit = exp
+                got = out.get("ok")
+                if not isinstance(got, bool) or (py_plain and not got):
+                    ctx.mismatch("plainType", replay, py_plain, out)
+                elif got and nfit:
+                    ctx.mismatch("plainType: Fitter consulted although the target type is plain", replay, 0, nfit)
+                else:
+                    ctx.count("plain_type_tie:" + ("plain" if got else "needy"))
+                continue
             if isinstance(exp, tuple) and exp[0] == "fillreq":
                 # when is the Fitter consulted by clear_incompatible?  (fill_fitsTrivially_iff: iff the walk does not end at
                 # a valid end, there are fillers, and the node as it is — old type, old children — cannot take them)
@@ -522,6 +534,9 @@ def run(ctx):
                     reqs.append(preq)
                     metas.append((replay, ("plan", name, st, [info.step(s) for s in tr.steps] if st == "ok" else None,
                                            info.node(tr.doc) if st == "ok" else None)))
+                    if name == "set_block_type":
+                        reqs.append({"op": "plainType", "s": info.lean_id, "type": info.nid[args[2].name]})
+                        metas.append((replay, ("plain", plain_inline(args[2]), len(fit_log))))
                     if bundled and name in ("set_node_markup", "set_block_type", "clear_incompatible"):
                         # the same planner with the Fitter *model* plugged in (lean/PM/TypePlanFit.lean): no recorded answers
                         # are sent; the Fitter model is tied exactly on the bundled-family schemas (C11)
